@@ -86,7 +86,14 @@ func record(seed int64, traces, n int, out, mode string) {
 		} else if mode == "dirty" {
 			clean = false
 		}
+		if mode == "shapes" {
+			clean = true
+		}
 		c := randomCfg(rng, clean)
+		if mode == "shapes" {
+			c.Queue = t % 2
+			c.CpMod = 0
+		}
 		d, err := newDriver(c, w)
 		if err != nil {
 			vtrace.Broken(err.Error())
@@ -99,14 +106,24 @@ func record(seed int64, traces, n int, out, mode string) {
 		if clean {
 			nclean++
 		}
-		withJobs := mode == "jobs" || (mode != "nojobs" && rng.Intn(3) != 0)
-		if err := d.genesis(c, genesisTxs(rng)); err != nil {
+		withJobs := mode == "jobs" || (mode != "nojobs" && mode != "shapes" && rng.Intn(3) != 0)
+		gen := genesisTxs(rng)
+		var prefix []op
+		if mode == "shapes" {
+			gen, prefix = shapesHistory(t)
+		}
+		if err := d.genesis(c, gen); err != nil {
 			vtrace.Broken("genesis: " + err.Error())
 			return
 		}
 		failed := ""
 		for i := 0; i < n; i++ {
-			o := pick(d, rng, withJobs)
+			var o op
+			if i < len(prefix) {
+				o = prefix[i]
+			} else {
+				o = pick(d, rng, withJobs)
+			}
 			if err := d.doPicked(o, rng); err != nil {
 				failed = fmt.Sprintf("trace %d step %d %+v: %v", t+1, i, o, err)
 				break
@@ -141,6 +158,39 @@ func record(seed int64, traces, n int, out, mode string) {
 	vtrace.Stat("jobs", njobs)
 	vtrace.Stat("clean_traces", nclean)
 	vtrace.Stat("distinct", kinds.Len())
+}
+
+// shapesHistory: engineered start of a history.  All three accounts exist, one of them owns a data trie with the keys
+// K0 K1 K2 (and K3 in every second trace).  After the genesis root has been pruned (its new-hashes entry cancelled), one
+// block deletes K0 (the data trie's root branch collapses over the committed branch B), later blocks remove account 3
+// (main trie branch X collapses over the committed branch Y), K1 (collapse over a leaf) ..., each followed by enough
+// finalizations for the old root to be pruned.
+func shapesHistory(t int) ([]txop, []op) {
+	owner := 1 + t%3
+	gen := []txop{{K: "bal", A: 1, V: 1}, {K: "bal", A: 2, V: 1}, {K: "bal", A: 3, V: 1},
+		{K: "set", A: owner, X: 0, V: 1}, {K: "set", A: owner, X: 1, V: 1}, {K: "set", A: owner, X: 2, V: 2}}
+	if t%2 == 1 {
+		gen = append(gen, txop{K: "set", A: owner, X: 3, V: 1})
+	}
+	var ops []op
+	settle := func() {
+		for i := 0; i < 3; i++ {
+			ops = append(ops, op{Op: "commit", Txs: []txop{}}, op{Op: "finalize"})
+		}
+	}
+	block := func(txs ...txop) {
+		ops = append(ops, op{Op: "commit", Txs: txs}, op{Op: "finalize"})
+		settle()
+	}
+	settle()
+	block(txop{K: "del", A: owner, X: 0})
+	victim := 3
+	if owner == 3 {
+		victim = 1 + (t/3)%2
+	}
+	block(txop{K: "rm", A: victim})
+	block(txop{K: "del", A: owner, X: 1})
+	return gen, ops
 }
 
 // doPicked executes a picked step; "step" releases a random parked goroutine
